@@ -600,3 +600,31 @@ def nontrivial_key(c, impl):
     if impl and impl.startswith("S "):
         return (c["kind"], impl)
     return None
+
+
+# ---------------------------------------------------------------------------------------------
+# PER buckets under a configured fixed-offset time zone (tools/props/c16_bucket.py) folded in.
+from props import c16_bucket as _BK
+
+_A16 = {"cases": cases, "same": same, "oracle": oracle, "classify": classify, "nontrivial_key": nontrivial_key}
+THEOREMS = list(THEOREMS) + list(_BK.THEOREMS)
+
+
+def cases(rng, tier):
+    return _A16["cases"](rng, tier) + _BK.cases(rng.fork("bucket"), tier)
+
+
+def same(c, impl, model):
+    return _BK.same(c, impl, model) if _BK.is_mine(c) else _A16["same"](c, impl, model)
+
+
+def oracle(c, impl):
+    return _BK.oracle(c, impl) if _BK.is_mine(c) else _A16["oracle"](c, impl)
+
+
+def classify(c, impl):
+    return None if _BK.is_mine(c) else _A16["classify"](c, impl)
+
+
+def nontrivial_key(c, impl):
+    return _BK.nontrivial_key(c, impl) if _BK.is_mine(c) else _A16["nontrivial_key"](c, impl)
